@@ -141,7 +141,8 @@ class ScopeMetrics:
     ) -> None:
         assert not self._completed.done(), "Can't record using completed metrics scope"  # nosec: B101
         metric_type: type[Metric] = type(metric)
-        if current := self._metrics.get(metric_type):
+        current: State | None = self._metrics.get(metric_type)
+        if current is not None:  # a recorded metric may well be falsy (i.e. an empty collection)
             self._metrics[metric_type] = merge(cast(Metric, current), metric)
 
         else:
